@@ -379,6 +379,7 @@ def make_tracer(prefix, on_line, opcodes=False):
 
 
 FULL_EVERY = 64
+STRESS_DEADLINE = 90.0
 _OPC_WARM = [False]
 
 
@@ -573,8 +574,10 @@ def forced_run(pf, ops, plan, shared=None, timeout=60.0, root=None, opcodes=Fals
     for t in ts:
         t.start()
     sch.start()
+    import time
+    deadline = time.time() + timeout + 5
     for t in ts:
-        t.join(timeout + 5)
+        t.join(max(0.0, deadline - time.time()))
     return res, list(sch.steps), sch.dead or any(t.is_alive() for t in ts)
 
 
@@ -625,8 +628,9 @@ def stress_run(pf, op_lists, rng, shared=None, switch=1e-6):
     try:
         for t in ts:
             t.start()
+        deadline = time.time() + STRESS_DEADLINE       # one deadline for the whole round, not per thread
         for t in ts:
-            t.join(180)
+            t.join(max(0.0, deadline - time.time()))
     finally:
         sys.setswitchinterval(old)
     hung = any(t.is_alive() for t in ts)
@@ -793,7 +797,7 @@ def tree_forced(tree, name, k):
     return res[1]
 
 
-def storm_run(pf, op_a, op_b, shared=None, every=1, phase=0, timeout=120.0, max_calls=100000, opcodes=False):
+def storm_run(pf, op_a, op_b, shared=None, every=1, phase=0, timeout=60.0, max_calls=100000, opcodes=False):
     """Two real threads: thread 1 runs op_b and is preempted at every `every`-th line event of
     fastparquet code; at each preemption thread 0 runs op_a once, to completion (a thread issuing the
     same operation again and again).  Deterministic.  Returns (distinct raw results of op_a as a list,
@@ -848,6 +852,6 @@ def storm_run(pf, op_a, op_b, shared=None, every=1, phase=0, timeout=120.0, max_
     tb = threading.Thread(target=body_b, daemon=True)
     ta.start()
     tb.start()
-    tb.join(timeout * 3)
-    ta.join(timeout)
+    tb.join(timeout * 2)
+    ta.join(5.0 if not tb.is_alive() else 0.1)
     return a_results, res_b[0], calls[0], dead[0] or ta.is_alive() or tb.is_alive()
